@@ -84,11 +84,11 @@ def sub_of(case: dict) -> str:
 
 
 def label(case: dict) -> str:
-    return f"{sub_of(case)}|{case['tree']}|{case['mode']}|eb{case['eb']}"
+    return f"{sub_of(case)}|{case['tree']}|{case['mode']}|eb{case['eb']}|ex{case.get('ex', 1)}"
 
 
 def prepare(case: dict) -> dict:
-    case['id'] = fx.case_id({k: case[k] for k in ('sub', 'mode', 'eb', 'tree')})
+    case['id'] = fx.case_id({k: case.get(k, 1) for k in ('sub', 'mode', 'eb', 'ex', 'tree')})
     return case
 
 
@@ -99,7 +99,7 @@ def stratum(case: dict) -> str:
     ell = ''.join('e' if '...' in op else '-' for op in (case['b'], case['x'], case['o']))
     outcome = ('ctor:' + case['ctorwhy']) if not case['ctor'] else ('invalid' if not case['valid'] else
                                                                      ('T' if case['tok'] else 'E:' + case['twhy']))
-    return f"{len(case['b'])}{len(case['x'])}{len(case['o'])}/{len(set(letters))}/{int(rep)}/{ell}/{outcome}/{case['mode']}{case['eb']}"
+    return f"{len(case['b'])}{len(case['x'])}{len(case['o'])}/{len(set(letters))}/{int(rep)}/{ell}/{outcome}/{case['mode']}{case['eb']}{case.get('ex', 1)}"
 
 
 # ----------------------------------------------------------------------------- stage 2 (worker)
